@@ -78,7 +78,7 @@ let show_frame = function
   | FDQempty1 f -> Printf.sprintf "FDQempty1 %d" (i f) | FDQempty2 f -> Printf.sprintf "FDQempty2 %d" (i f) | FDQidle f -> Printf.sprintf "FDQidle %d" (i f)
   | FWakeWith (d, w) -> Printf.sprintf "FWakeWith %d %s" (i d) (show_waker w)
   | FS1 (o, _) -> Printf.sprintf "FS1 %d" (i o) | FClosure (o, _) -> Printf.sprintf "FClosure %d" (i o) | FSIidle -> "FSIidle"
-  | FSDpush _ -> "FSDpush" | FSDloop -> "FSDloop" | FSDidle -> "FSDidle" | FSBreg _ -> "FSBreg" | FSBpush _ -> "FSBpush" | FSBwait -> "FSBwait" | FSBdone -> "FSBdone"
+  | FSDpush _ -> "FSDpush" | FSDloop -> "FSDloop" | FSDidle -> "FSDidle" | FSBreg _ -> "FSBreg" | FSBpush _ -> "FSBpush" | FSBwait -> "FSBwait" | FSBdone -> "FSBdone" | FSBclaim -> "FSBclaim"
   | FROdeq -> "FROdeq" | FROpend _ -> "FROpend" | FROcheck _ -> "FROcheck" | FROpark _ -> "FROpark" | FRQ1 -> "FRQ1" | FRQ2 -> "FRQ2"
   | FFire e -> Printf.sprintf "FFire %d" (i e) | FPIdle -> "FPIdle" | FDRdeq -> "FDRdeq" | FDRrequeue _ -> "FDRrequeue" | FDRpend -> "FDRpend" | FDRfin -> "FDRfin"
   | FJob (j, w, k) -> Printf.sprintf "FJob(%s, %s, %s)" (show_job j) (show_waker w) (match k with KDrain -> "drain" | KRoj -> "roj" | KDq (f, d) -> Printf.sprintf "dq %d %d" (i f) (i d))
@@ -173,6 +173,7 @@ let at_of (s : state) (fr : frame) : lab option =
   match fr with
   | FSFpoll f -> (match (getf s (i f)).res with FSome _ | FReturned -> Some (Fres (i f)) | FNone -> Some Core)   (* no result yet: the core section nested in fres *)
   | FPIdle -> Some Core                                  (* the core section nested in the schedule section of next_to_run *)
+  | FSBclaim -> Some Core                                (* claim_pending_queue of a sync_background waiter: core nested in the schedule section *)
   | FJob (JFut (_, Waiting, PAwait e :: _), _, _) -> if (getev s (i e)).fired then Some (Rdy (i e)) else Some (Reg (i e))
   | FJob (JFut (_, Waiting, PAwaitEither (e, e2) :: _), _, _) ->      (* api EITHERREADY <first fired> / EITHERREG <e> *)
     if (getev s (i e)).fired then Some (Rdy (i e)) else if (getev s (i e2)).fired then Some (Rdy (i e2)) else Some (Reg (i e))
@@ -191,6 +192,7 @@ let post_of (s0 : state) (a : int) (fr : frame) (s1 : state) : lab list =
   | FSFpoll f when (getf s0 (i f)).res = FNone ->
     Fres (i f) :: (match t1 with Some (FDQtake _) -> [Core] | _ -> [])             (* end of the result section; drain_queue asserts is_running *)
   | FPIdle -> (match t1 with Some FDRdeq -> [Sched; Core] | _ -> [])               (* end of next_to_run; drain asserts is_running *)
+  | FSBclaim -> [Sched]                                                            (* end of claim_pending_queue *)
   | FDRdeq | FROdeq | FDQdeq _ -> (match t1 with Some (FJob _) -> [Core] | _ -> []) (* debug_assert after a successful dequeue *)
   | FS1 _ -> (match t1 with Some (FClosure _) | Some (FSDpush _) -> [Core] | _ -> []) (* sync_immediate / sync_drain assert is_running *)
   | FJob (JFut (_, Waiting, PSignal f :: _), _, _) -> [Fres (i f)]                 (* Drop of the signaller re-locks the result *)
@@ -383,6 +385,34 @@ let replay (p : pinfo) (evs : ev array) : stats =
       at_end (); ended := true
     end
     else if !ended && p.pool = 0 then ()        (* without a pool the harness drains the queues itself after END (extra sync calls) *)
+    else if e.kind = "kick" then begin
+      (* reschedule_queue sets the waiters' `rescheduled` flags INSIDE its core section; a waiter (its loop head is not under the core
+         lock) may see the flag before the section is logged as ended.  The FRQ1 step is therefore taken here, at the kick (nothing
+         else can touch the core data until the section ends); the section's own `cs core` event then only checks the snapshot *)
+      (match Hashtbl.find_opt actor_of e.task with
+       | Some b ->
+         (match settle b 200 with
+          | Some Core when (match top_of !s b with Some FRQ1 -> true | _ -> false) ->
+            (match raw_step b "kick (reschedule_queue)" with
+             | Some _ -> st.labelled <- st.labelled + 1; Hashtbl.replace pend b (Core :: getp b)
+             | None -> ())
+          | _ -> ())
+       | None -> ())
+    end
+    else if e.kind = "cs" && e.cls = "ready" then begin
+      (* the head of the loop of a sync_background waiter, under its `ready` mutex (model frame FSBwait, no model lock): the section
+         ends when the waiter leaves to claim the queue (ready = false, its `rescheduled` flag was set: FSBwait -> FSBclaim) or when
+         it finds its job done (ready = true: FSBwait -> FSBdone).  Sections on `ready` by other tasks (the job wrapper, the
+         pass-through of reschedule_queue) and by the waiter while it runs the queue itself are not model steps *)
+      (match Hashtbl.find_opt actor_of e.task with
+       | Some a when getp a = [] && (match top_of !s a with Some FSBwait -> true | _ -> false) ->
+         if e.snap = "true" && not (arec a).sres then give_sres a;
+         if e.snap = "false" && (arec a).sres then div "waiter %d found its job not yet run, in the model it has been run" a;
+         (match raw_step a "head of the waiter's loop" with
+          | Some _ -> ()
+          | None -> div "waiter %d leaves the head of its loop (ready = %s), in the model it is blocked (job not run, not kicked)" a e.snap)
+       | _ -> ())
+    end
     else if relevant e then begin
       let a = (match Hashtbl.find_opt actor_of e.task with
           | Some a -> a
@@ -430,17 +460,7 @@ let replay (p : pinfo) (evs : ev array) : stats =
       | "api", "EITHERREADY" -> handle a (Rdy e.id) ""
       | "api", "TWAKE" -> (match Hashtbl.find_opt actor_of e.id with Some c -> handle a (Twake c) "" | None -> ())
       | "api", "UNPARKED" -> handle a Unparked ""
-      | "cs", "core" when Hashtbl.mem held_sched e.task && getp a = [] && in_sbwait a ->
-        (* claim_pending_queue of the sync_background waiter (core.rs:70: schedule lock, core nested): not in the model (FSBwait is
-           abstract).  A failed claim is read-only; a successful one (Idle|Pending -> Running, even after the job has already been
-           run by the pool) starts the waiter's own run/Idle/reschedule path, which the model does not have *)
-        if agrees !s Core e.snap then st.stutters <- st.stutters + 1
-        else raise (Unsupported "sync_background claims (steals) the queue: the model abstracts the waiter's steal path (L1)")
       | "cs", "core" -> handle a Core e.snap
-      | "cs", "sched" when getp a = [] && in_sbwait a ->        (* the end of claim_pending_queue: no model step, no silent steps *)
-        Hashtbl.remove held_sched e.task;
-        if agrees !s Sched e.snap then st.stutters <- st.stutters + 1
-        else raise (Unsupported "sync_background claims (steals) the queue: the model abstracts the waiter's steal path (L1)")
       | "cs", "sched" -> Hashtbl.remove held_sched e.task; handle a Sched e.snap
       | "cs", "fres" -> handle a (Fres e.id) ""
       | "cs", "dwaker" -> handle a (Dw e.id) e.snap
